@@ -135,7 +135,7 @@ class tcp_opt (object):
     else:
       #self.msg('(tcp parse_options) warning, unknown option %x '
       #         % (ord(arr[i]),))
-      o.val = arr[i+2:i+2+length]
+      o.val = arr[i+2:i+length]
 
     return offset+length,o
 
